@@ -48,6 +48,9 @@ Definition ex6 : list op3 :=
    A (OSize (Some 4));
    A (OGet (Some 4) 2);
    A (OGet (Some 4) 3);                                     (* index out of range: NULL *)
+   A (ODeleteIdx (Some 4) 9);                               (* index out of range: nothing happens *)
+   A (OReplaceIdx (Some 4) (-1) (Some 5));                  (* negative index: refused *)
+   O2 (OGetKey None (Some 1) true);                         (* NULL object: NULL *)
    A (ODelete (Some 3))]%positive.
 
 Lemma ex6_accepted : pre_ok_all3b S0 ex6 = true.
@@ -59,7 +62,7 @@ Lemma ex6_results :
    R (RPtr (Some 6)); R (RBool true); R (RBool false); R (RBool true); R (RPtr (Some 9)); R (RPtr (Some 11));
    R (RPtr (Some 13)); R (RBool true); R (RBool true); R (RPtr (Some 4)); R (RPtr (Some 9)); R (RPtr (Some 15));
    R (RBool true); RDbl (dbl_of_int 9); R (RInt 513); R (RPtr (Some 7)); R (RBool true); RDbl (dbl_of_int 9);
-   R (RInt 3); R (RPtr (Some 14)); R (RPtr None); R RUnit]%positive.
+   R (RInt 3); R (RPtr (Some 14)); R (RPtr None); R RUnit; R (RBool false); R (RPtr None); R RUnit]%positive.
 Proof. vm_compute. reflexivity. Qed.
 
 Corollary ex6_history :
